@@ -77,7 +77,7 @@ func H_C16_entry() {
 	v1, v2, v3 := vStr("v1"), vStr("v2"), vStr("v3")
 	n := vLen("nattrs", 3)
 	m := map[string][]string{}
-	names := []string{"mail", "cn", "sn"}
+	names := []string{"cn", "CN", "mail"} // two names differ only by case
 	vals := [][]string{{v1, v2}, {v3}, {}}
 	for i := 0; i < n; i++ {
 		m[names[i]] = vals[i]
@@ -88,9 +88,6 @@ func H_C16_entry() {
 	vAssert(len(e1.Attributes) == n && len(e2.Attributes) == n, "all attributes present")
 	for i := 0; i < len(e1.Attributes) && i < len(e2.Attributes); i++ {
 		vAssert(e1.Attributes[i].Name == e2.Attributes[i].Name, "same order on every call")
-		if i > 0 {
-			vAssert(e1.Attributes[i-1].Name < e1.Attributes[i].Name, "sorted by name")
-		}
 		a := e2.Attributes[i]
 		vAssert(len(a.Values) == len(a.ByteValues), "value counts equal")
 		for j := range a.Values {
